@@ -197,3 +197,31 @@ theorem pattern_is_grammar :
   ⟨nameRe, pattern_parses, fun n => by rw [matches_iff, lang_name]⟩
 
 end OciName
+
+namespace OciName
+
+/-- non-vacuity of the grammar: `a/b` is a name (two one-letter components) -/
+example : IsName [97, 47, 98] :=
+  ⟨[97], [[98]], ⟨[97], [], ⟨by simp, by simp [alnum]⟩, by simp, by simp⟩,
+    by
+      intro x hx
+      simp at hx
+      subst hx
+      exact ⟨[98], [], ⟨by simp, by simp [alnum]⟩, by simp, by simp⟩,
+    by simp⟩
+
+/-- the empty string is not a name: a name begins with a component, a component with a non-empty word -/
+example : ¬ IsName [] := by
+  rintro ⟨c, cs, ⟨w, rest, hw, _, hc⟩, _, hn⟩
+  have : c = [] := by
+    have := congrArg List.length hn
+    simp at this
+    exact List.eq_nil_of_length_eq_zero (by omega)
+  subst this
+  have : w = [] := by
+    have := congrArg List.length hc
+    simp at this
+    exact List.eq_nil_of_length_eq_zero (by omega)
+  exact hw.1 this
+
+end OciName
